@@ -19,6 +19,7 @@ type Cfg struct {
 	Dealer     int      `json:"dealer"`
 	DeadSB     bool     `json:"dead_sb,omitempty"`    // the seat after the dealer holds no position (as in Test_Actions_EmptySB_*)
 	NoSBSeat   bool     `json:"no_sb_seat,omitempty"` // nobody holds the small blind: the big blind sits right after the dealer
+	NoBBSeat   bool     `json:"no_bb_seat,omitempty"` // button-blind / ante-only game: only the dealer holds a position, SB = BB = 0
 	Ante       int64    `json:"ante"`
 	SB         int64    `json:"sb"`
 	BB         int64    `json:"bb"`
@@ -34,11 +35,21 @@ type Cfg struct {
 	// ConstructorDeck: hand the engine the slice returned by its own deck
 	// constructor (what table/ does) and keep whatever order Start() shuffles it to
 	ConstructorDeck bool `json:"constructor_deck,omitempty"`
+	// Prelude: the game object has played PreludeSteps operations of this other
+	// hand before it is given the options of the hand under test (ApplyOptions)
+	Prelude      *Cfg `json:"prelude,omitempty"`
+	PreludeSteps int  `json:"prelude_steps,omitempty"`
 }
 
 // Positions exactly as table/internal.go derives them from the seat manager.
 func (c *Cfg) Positions(i int) []string {
 	rel := (i - c.Dealer + c.N) % c.N
+	if c.NoBBSeat {
+		if rel == 0 {
+			return []string{"dealer"}
+		}
+		return []string{}
+	}
 	if c.NoSBSeat {
 		switch rel {
 		case 0:
@@ -117,6 +128,8 @@ type Profile struct {
 	ThemedDecks bool // tie / flush / straight inducing decks
 	Showdown    bool // favour hands that reach a showdown
 	Cuts        bool // C07: rebuild from JSON at drawn wait points
+	NoBBGames   bool // also generate button-blind / ante-only games (no seat holds "bb", SB = BB = 0)
+	noPrelude   bool
 	SmallStacks bool // C05/C12: tight stacks so that bounds bite
 }
 
@@ -175,6 +188,14 @@ func GenCfg(rt *rapid.T, pr Profile) *Cfg {
 	c.SB = pickI64(rt, "sb", 0, c.BB/2, c.BB/2, c.BB/2, c.BB/2, c.BB, 1, c.BB-1, c.BB/2+1, c.BB+1, 2*c.BB)
 	c.DB = pickI64(rt, "db", 0, 0, 0, 0, 0, c.BB, 2*c.BB, 1)
 	c.Ante = pickI64(rt, "ante", 0, 0, 0, 0, 1, c.BB/10, c.BB/2, c.BB, 3*c.BB)
+	if pr.NoBBGames && rapid.IntRange(0, 19).Draw(rt, "noBB") == 0 {
+		// the usual short-deck format: antes and a blind on the button only
+		c.NoBBSeat, c.NoSBSeat, c.DeadSB = true, false, false
+		unit := c.BB
+		c.SB, c.BB = 0, 0
+		c.DB = pickI64(rt, "buttonBlind", 0, unit, unit, 2*unit)
+		c.Ante = pickI64(rt, "noBBAnte", unit, unit, unit/2+1, 3*unit)
+	}
 	c.Limit = "no"
 	if rapid.IntRange(0, 4).Draw(rt, "limit") == 0 {
 		c.Limit = "pot"
@@ -195,6 +216,12 @@ func GenCfg(rt *rapid.T, pr Profile) *Cfg {
 		}
 	}
 	c.Deck, c.Theme = GenDeck(rt, c, pr)
+	if !pr.noPrelude && rapid.IntRange(0, 9).Draw(rt, "reuseGameObject") == 0 {
+		sub := pr
+		sub.noPrelude = true
+		c.Prelude = GenCfg(rt, sub)
+		c.PreludeSteps = rapid.IntRange(0, 60).Draw(rt, "preludeSteps")
+	}
 	return c
 }
 
